@@ -87,6 +87,7 @@ SOURCES = [
     TD(id='clear_critical_region_flag', sig=r'void clear_critical_region_flag\(\)', c_sig='static void td_clear_critical_region_flag(struct td* self)',
        must_fire={'A_STORE': 1, 'A_LOAD': 1, 'subst:traits_abandon': 1}),
     TD(id='do_enter_critical', sig=r'void do_enter_critical\(\)', c_sig='static void td_do_enter_critical(struct td* self)',
+       self_calls=dict(TDCALLS, update_local_epoch='CALL_update_local_epoch', update_global_epoch='CALL_update_global_epoch'),
        must_fire={'A_LOAD': 4, 'self_call:set_critical_region_flag': 2, 'self_call:update_local_epoch': 2, 'self_call:update_global_epoch': 1,
                   'method:scan': 1, 'subst:traits_scan_frequency': 1, 'subst:traits_region_extension': 2}),
     TD(id='update_local_epoch', sig=r'void update_local_epoch\(epoch_t new_epoch\)', c_sig='static void td_update_local_epoch(struct td* self, epoch_t new_epoch)',
@@ -131,14 +132,100 @@ else:
     SOURCES.append(TD(id='reclaim_orphans', sig=r'void reclaim_orphans\(epoch_t epoch\)', c_sig='static void td_reclaim_orphans(struct td* self, epoch_t epoch)',
                       must_fire={'method:adopt': 1, 'subst:delete_objects': 1}))
 
+
+RE = {'none': 0, 'eager': 1, 'lazy': 2}
+AB = {'never': 0, 'always': 1, 'threshold': 2}
+SC = {'all': dict(XV_SCAN=0), 'n1': dict(XV_SCAN=1, XV_SCAN_N=1), 'n2': dict(XV_SCAN=1, XV_SCAN_N=2), 'n3': dict(XV_SCAN=1, XV_SCAN_N=3)}
+UNW = 6     # every loop of the lowered text and of the harness runs over a shape: number_epochs (3) slots, E <= 3 entries, N <= 3 scan steps
+def R(id, entry, mode='SEQ', defs=None, tiers=('quick', 'thorough'), note='', cls='shape-complete', **kw):
+    return dict(id=id, entry=entry, mode=mode, defs=defs or {}, tiers=list(tiers), cls=cls, unwind=UNW, note=note, **kw)
+RUNS = []
+# guard level: no loops, fully symbolic -> unbounded
+for op in ['ctor', 'copy', 'move', 'reset', 'assign_copy', 'assign_move', 'reclaim']:
+    RUNS.append(R('g_' + op, 'h_g_' + op, cls='unbounded'))
+RUNS.append(R('region_guard', 'h_region_guard', cls='unbounded'))
+for op in ['acquire', 'acquire_if_equal']:
+    RUNS.append(R('g_' + op, 'h_g_' + op, cls='unbounded'))
+    RUNS.append(R('g_' + op + '_int', 'h_g_' + op, mode='INT', cls='unbounded', note='other threads store arbitrary values to the source between the loads'))
+# thread_data level
+for re_, rv in RE.items():
+    for sc, sd in SC.items():
+        if sc == 'n3': continue
+        tiers = ('quick', 'thorough') if (sc in ('all', 'n1') or re_ == 'none') else ('thorough',)
+        RUNS.append(R('enter_%s_%s' % (re_, sc), 'h_enter_critical', defs=dict(sd, XV_REGION_EXT=rv, XV_STUB_UPDATE=1), tiers=tiers))
+    RUNS.append(R('enter_%s_all_int' % re_, 'h_enter_critical', mode='INT', defs=dict(SC['all'], XV_REGION_EXT=rv, XV_STUB_UPDATE=1),
+                  note='global epoch grows and the records of other threads change between any two atomic accesses'))
+    RUNS.append(R('enter_%s_n2_int' % re_, 'h_enter_critical', mode='INT', defs=dict(SC['n2'], XV_REGION_EXT=rv, XV_STUB_UPDATE=1), tiers=('thorough',)))
+    for ab, av in AB.items():
+        RUNS.append(R('leave_%s_%s' % (re_, ab), 'h_leave_critical', defs=dict(XV_REGION_EXT=rv, XV_ABANDON=av)))
+    RUNS.append(R('enter_region_%s' % re_, 'h_enter_region', defs=dict(XV_REGION_EXT=rv)))
+    RUNS.append(R('leave_region_%s' % re_, 'h_leave_region', defs=dict(XV_REGION_EXT=rv, XV_ABANDON=1)))
+    RUNS.append(R('leave_region_%s_threshold' % re_, 'h_leave_region', defs=dict(XV_REGION_EXT=rv, XV_ABANDON=2), tiers=('thorough',)))
+RUNS.append(R('set_flag', 'h_set_flag'))
+for sc in ['all', 'n1']:
+    RUNS.append(R('update_local_epoch_' + sc, 'h_update_local_epoch', defs=SC[sc], note='all 64-bit old/new epochs with new > old'))
+    RUNS.append(R('acquire_cb_' + sc, 'h_acquire_cb', defs=SC[sc]))
+RUNS.append(R('acquire_cb_int', 'h_acquire_cb', mode='INT', defs=SC['n1']))
+RUNS.append(R('update_global_epoch', 'h_update_global_epoch'))
+RUNS.append(R('update_global_epoch_int', 'h_update_global_epoch', mode='INT',
+              note='other threads abandon/adopt orphans, advance the epoch (at most to e+1 while this thread is in its critical region at e) and change their records'))
+for sc in ['all', 'n1', 'n2', 'n3']:
+    RUNS.append(R('scan_' + sc, 'h_scan', defs=SC[sc]))
+    RUNS.append(R('scan_%s_int' % sc, 'h_scan', mode='INT', defs=SC[sc], tiers=('quick', 'thorough') if sc in ('all', 'n2') else ('thorough',)))
+for re_, rv in RE.items():
+    RUNS.append(R('dtor_' + re_, 'h_dtor', defs=dict(XV_REGION_EXT=rv)))
+RUNS.append(R('add_retired', 'h_add_retired'))
+
 UNIT = dict(
   title='generic_epoch_based (epoch_based / new_epoch_based / debra): guard_ptr, region_guard, thread_data, scan and abandon strategies (C01, C02, C17)',
   properties=['C01', 'C02', 'C17'],
-  drops='',
-  assumptions=[],
+  drops='templates: Traits::region_extension_type, scan strategy (all_threads / n_threads<N>; one_thread = n_threads<1>), abandon strategy are -D shapes of a run; '
+        'Traits::scan_frequency and when_exceeds_threshold<Threshold> are symbolic values; marked_ptr / concurrent_ptr are opaque words; '
+        'a chain of deletable_objects is abstracted to the set of its nodes (32 ghost nodes, any distribution over the 3+3 lists - covers L <= 3 and more); '
+        'thread_local local_thread_data and the inline static members are C globals; the lambda of all_threads::scan is lowered as a function of its own '
+        'and std::any_of is a stub; the thread list is an array of E <= 3 records linked in order; guard level and thread_data level are verified separately '
+        '(guard functions against a counting stub of enter_critical/leave_critical/add_retired_node whose contract the thread_data runs prove)',
+  assumptions=[
+    'stub retire_list/counting_retire_list push/steal/empty/size: conservation contract (unit rlist)',
+    'stub orphan_list add/adopt: add splices the whole chain in, adopt takes everything, both atomic (unit rlist)',
+    'stub delete_objects: delete_self on each node of the chain exactly once, argument nulled (unit rlist)',
+    'stub thread_block_list acquire_entry/release_entry/begin/end/iterator++: acquire returns an exclusively owned record, new or left over with arbitrary epoch; iteration visits every record (unit tbl)',
+    'std::any_of(first, last, pred) is true iff pred holds for some element',
+    'a record handed out by acquire_entry has is_in_critical_region == false: new records are constructed so, released records satisfy it by ebr.dtor.releases_record',
+    'the 64-bit global epoch does not wrap around (2^64 is not a multiple of number_epochs)',
+    'TSAN_MEMORY_ORDER picks the non-TSan order',
+    'composition (published EBR argument, not proved here): a thread inside a critical region whose record shows local epoch e has all its guards acquired at global epoch >= e; '
+    'every node retired with tag t was unlinked before, so only threads whose critical region began at epoch <= t+1 can still hold it; hence freeing at epoch >= t+3 is safe',
+    'INT rely: the global epoch only grows and cannot pass e+1 while this thread is inside a critical region that loaded e; orphans are added by threads whose local epoch is <= the global epoch',
+    'thread exit: ~thread_data runs when no guard_ptr / region_guard of the thread is alive',
+    'when_exceeds_threshold<0> is excluded (it would pass an empty chain to orphan_list::add)',
+  ],
   consts=[dict(name='number_epochs', file=DECL, regex=r'static constexpr epoch_t number_epochs = ([^;]+);', subst=[(r'^(.*)$', r'(epoch_t)\1')])],
   sources=SOURCES,
-  runs=[],
-  obligations={},
+  runs=RUNS,
+  obligations={
+    'ebr.enter.flag_then_fence_then_epoch': dict(deciding=True, text='when the in-critical flag is newly set: store(flag,true) precedes a seq_cst fence which precedes an acquire-or-stronger load of the global epoch, and on exit local_epoch is that loaded epoch or the loaded epoch + 1 and never exceeds the global epoch'),
+    'ebr.acquire.enter_before_load': dict(deciding=True, text='[INT] acquire / acquire_if_equal: enter_critical precedes the load of the source whose value is kept, and no leave_critical follows it'),
+    'ebr.acquire.snapshot': dict(deciding=True, text='[INT] a non-empty result is the value of the last load of the source, loaded with the requested order; acquire_if_equal returns true iff that snapshot equals expected, false leaves the guard empty'),
+    'ebr.nesting.balanced': dict(deciding=True, text='every guard / region operation on every path: enter_critical once per null->non-null transition, leave_critical once per non-null->null; the counters move by exactly one; the flag is cleared exactly when the relevant counter reaches 0 (never while a guard is left)'),
+    'ebr.copy.shares': dict(deciding=True, text='constructor from a marked_ptr, copy construction and copy assignment (self-assignment included) give the target the source value, leave the source untouched and take one more critical entry iff the value is non-null'),
+    'ebr.move.empties_source': dict(deciding=True, text='move construction / move assignment transfer the value and the critical entry, the source becomes empty; self-move is a no-op'),
+    'ebr.reclaim.retires_once': dict(deciding=True, text='reclaim(d): set_deleter(d) on the guarded object, then add_retired_node exactly once for that object while still inside the critical region, then the guard is reset'),
+    'ebr.leave.release_store': dict(deciding=True, text='sync: the store that clears the in-critical flag is release-or-stronger'),
+    'ebr.free.three_epochs': dict(deciding=True, text='a node of a local retire list is passed to delete_objects only if new_epoch - tag >= 3 (tag = local epoch at retirement), for all 64-bit epochs'),
+    'ebr.free.exact': dict(deciding=True, text='update_local_epoch frees exactly the lists of the epochs new, new-1, ... new-min(d,number_epochs)+1 (d = new - old) and stores the local epoch once'),
+    'ebr.free.index_consistent': dict(deciding=True, text='after update_local_epoch: local_epoch == new_epoch, local_epoch_idx == new_epoch % number_epochs and every kept list i holds only nodes with tag = i (mod number_epochs) not older than number_epochs-1 epochs, for all 64-bit epoch distances'),
+    'ebr.retire.slot': dict(deciding=True, text='add_retired_node puts the node into the list of slot local_epoch % number_epochs'),
+    'ebr.advance.after_scan': dict(deciding=True, text='CAS(global, e -> e+1) only after a scan for that same e returned true, and scan returns true only if every entry was observed outside a critical region or with local_epoch == e (entries outside a critical region never block)'),
+    'ebr.advance.sync': dict(deciding=True, text='sync: an acquire fence separates the scan loads from the CAS on the global epoch; the CAS is release-or-stronger'),
+    'ebr.scan.exact': dict(deciding=True, text='all_threads::scan returns true iff no entry is in a critical region at another epoch, and writes nothing'),
+    'ebr.scan.prefix_valid': dict(deciding=True, text='n_threads<N>::scan: returns true iff the iterator reached the end; advances by at most N; every entry before the iterator was validated for the current local epoch since the last reset(); reset() on every change of the local epoch'),
+    'ebr.orphans.slot': dict(deciding=True, text='abandon strategies and ~thread_data move whole lists into the orphan slot with the same index; an orphan is freed only by the thread whose CAS advanced the epoch to n, after that CAS, and only if n - tag >= 3 - also when other threads abandon nodes concurrently [INT]'),
+    'ebr.conserve': dict(deciding=True, text='C02: every function conserves the multiset of retired nodes (lists after + deleted now = lists before), no node in two lists, none deleted twice; frames: nothing else is written'),
+    'ebr.dtor.hands_over_all': dict(deciding=True, text='~thread_data leaves all retire lists of the thread empty, deletes nothing, and every node is in the orphan slot of its list index'),
+    'ebr.dtor.releases_record': dict(deciding=True, text='C17: ~thread_data releases the record exactly once with is_in_critical_region == false, so it never blocks a scan'),
+    'ebr.adopt.reinit': dict(deciding=True, text='C17: acquire_control_block on an arbitrary left-over record: local_epoch == a freshly loaded global epoch, local_epoch_idx == local_epoch % number_epochs, scan strategy reset, flag false, retire lists empty; records are acquired only when the thread has none'),
+    'ebr.enter.invariant': dict(deciding=True, text='the thread_data representation invariant (counters vs flag per region_extension, epoch index, tags of all lists, local epoch <= global epoch) is preserved by every operation'),
+  },
   canaries=[],
 )
